@@ -82,11 +82,73 @@ def drives(p: Path) -> List[str]:
 
 
 def tree_rows(tree: CompTree):
+    """structural rows of the composition (helper names and managed keys are internal and not compared)"""
+    ids = helper_ids(tree)
     rows = []
     for h in tree.all():
-        kw = tuple(sorted((k, repr(v)) for k, v in h.kwargs.items() if k != "fullname_override"))
-        rows.append((h.role, h.key, h.cls.name, kw, h.name, h.parent.name if h.parent else None))
-    return sorted(rows, key=repr)
+        rows.append((h.role, h.cls.name, ids[h.name], h.describe()))
+    return sorted(rows, key=lambda r: r[:3])
+
+
+def helper_ids(tree: CompTree) -> Dict[str, str]:
+    """canonical, name-independent ids of the helpers: by structural position (role, class, non-name kwargs, parent)"""
+    ids: Dict[str, str] = {}
+
+    def sig(h: Helper):
+        kw = []
+        for k, v in sorted(h.kwargs.items()):
+            if k in ("fullname_override", "name_suffix"):
+                continue
+            r = repr(v)
+            for nm, i in sorted(ids.items(), key=lambda kv: -len(kv[0])):
+                r = r.replace(nm, i)
+            kw.append((k, r))
+        return (h.role if h.role != "managed" else "managed", h.cls.name, tuple(kw), ids.get(h.parent.name) if h.parent else None)
+
+    todo = list(tree.all())
+    # managed series first (their names occur in the inputs of the others), then by depth
+    todo.sort(key=lambda h: (h.depth, 0 if h.cls.name == "Managed" else 1))
+    counters: Dict[tuple, int] = {}
+    for h in todo:
+        s = sig(h)
+        k = counters.get(s, 0)
+        counters[s] = k + 1
+        ids[h.name] = f"#h[{s[0]}:{s[1]}:{','.join(f'{a}={b}' for a, b in s[2])}:{s[3]}:{k}]"
+    return ids
+
+
+def rename(x, mp: Dict[str, str]):
+    """rewrite helper names inside terms / conditions / values (longest name first; dotted fields kept)"""
+    if not mp:
+        return x
+    keys = sorted(mp, key=len, reverse=True)
+
+    def rn(name: str) -> str:
+        base, dot, fld = name.partition(".")
+        if base in mp:
+            return mp[base] + dot + fld
+        return name
+
+    def rec(y):
+        if isinstance(y, Frac):
+            atoms = [a for a in poly.all_atoms(y) | y.atoms() if a[0] == "rd" and rn(a[1]) != a[1]]
+            if not atoms:
+                return y
+            m = {a: poly.mk_rd(rn(a[1]), rec(a[2])) for a in atoms}
+            return poly.subst(y, m)
+        if isinstance(y, tuple):
+            if y and y[0] in ("present", "period", "isnum", "isdict", "isinstance") and len(y) > 1 and isinstance(y[1], str):
+                return (y[0], rn(y[1])) + tuple(rec(z) for z in y[2:])
+            return tuple(rec(z) for z in y)
+        if isinstance(y, Num):
+            return Num(rec(y.f))
+        if isinstance(y, BoolV):
+            return BoolV(rec(y.cond) if isinstance(y.cond, tuple) else y.cond)
+        if isinstance(y, DictV):
+            return DictV({k: rec(v) for k, v in y.items.items()})
+        return y
+
+    return rec(x)
 
 
 def compare_class(prop: str, res: Result, repo: Repo, ci: ClassInfo) -> None:
@@ -101,28 +163,30 @@ def compare_class(prop: str, res: Result, repo: Repo, ci: ClassInfo) -> None:
     fn = ca.fn or ci
     # ---- wiring
     rows_c, rows_r = tree_rows(ca.tree), tree_rows(cr.tree)
-    if rows_c == rows_r:
-        res.ok("R-WIRE", {"class": ci.name, "helpers": [f"{r[0]}:{r[2]} as {r[4]}" for r in rows_c]}, nontrivial=f"{ci.name}:tree" if rows_c else None)
+    if [r[:3] for r in rows_c] == [r[:3] for r in rows_r]:
+        res.ok("R-WIRE", {"class": ci.name, "helpers": [r[3] for r in rows_c]}, nontrivial=f"{ci.name}:tree" if rows_c else None)
     else:
-        missing = [r for r in rows_r if r not in rows_c]
-        extra = [r for r in rows_c if r not in rows_r]
+        missing = [r[3] for r in rows_r if r[:3] not in [x[:3] for x in rows_c]]
+        extra = [r[3] for r in rows_c if r[:3] not in [x[:3] for x in rows_r]]
         init = repo.find_method(ci, "_initialise") or ci
-        res.fail("R-WIRE", finding(prop, "R-WIRE", init, getattr(init, "node", None), f"helper wiring differs from the definition: expected {[(r[0], r[2], dict(r[3]), r[4]) for r in missing]}; found {[(r[0], r[2], dict(r[3]), r[4]) for r in extra]}", construct=f"{ci.name} composition: " + "; ".join(f"{r[2]}({dict(r[3])}) as {r[4]}" for r in extra)[:150]))
+        res.fail("R-WIRE", finding(prop, "R-WIRE", init, getattr(init, "node", None), f"helper wiring differs from the definition: expected {missing}; found {extra}", construct=f"{ci.name} composition: " + "; ".join(extra)[:150]))
+    ids_c, ids_r = helper_ids(ca.tree), helper_ids(cr.tree)
     # ---- formulas
+    ref_paths = [(rename(tuple(pr.state.facts), ids_r), rename(pr.ret, ids_r), {ids_r.get(k, k): rename(v, ids_r) for k, v in final_writes(pr).items()}, sorted(ids_r.get(d, d) for d in drives(pr)), pr) for pr in cr.paths]
     for pc in ca.paths:
-        fc = tuple(pc.state.facts)
-        matches = [pr for pr in cr.paths if compatible(fc, tuple(pr.state.facts))]
+        fc = rename(tuple(pc.state.facts), ids_c)
+        matches = [rp for rp in ref_paths if compatible(fc, rp[0])]
         guard = " & ".join(show_cond(c) for c in fc)[:200] or "always"
         if not matches:
             res.fail("R-VN", finding(prop, "R-VN", fn, pc.node or fn.node, f"no case of the definition is compatible with the guard [{guard}]", construct=f"{ci.name} guard: {guard}"[:190]))
             continue
-        for pr in matches:
+        for rfacts, rret, rwrites, rdrives, pr in matches:
             rguard = " & ".join(show_cond(c) for c in pr.state.facts)[:160] or "always"
-            ok, why = same_val(pc.ret, pr.ret)
+            ok, why = same_val(rename(pc.ret, ids_c), rret)
             if not ok:
                 res.fail("R-VN", finding(prop, "R-VN", fn, pc.node or fn.node, f"under [{guard}] the reading differs from the definition (case [{rguard}]): {why}", construct=f"{ci.name} value under [{guard}]"[:190]))
                 continue
-            wc, wr = final_writes(pc), final_writes(pr)
+            wc, wr = {ids_c.get(k, k): rename(v, ids_c) for k, v in final_writes(pc).items()}, rwrites
             bad = None
             if set(wc) != set(wr):
                 bad = f"series written {sorted(wc)} != {sorted(wr)}"
@@ -132,7 +196,7 @@ def compare_class(prop: str, res: Result, repo: Repo, ci: ClassInfo) -> None:
                     if not ok2:
                         bad = f"value written to {k}: {why2}"
                         break
-            if bad is None and sorted(drives(pc)) != sorted(drives(pr)):
+            if bad is None and sorted(ids_c.get(d, d) for d in drives(pc)) != rdrives:
                 bad = f"helpers driven {drives(pc)} != {drives(pr)}"
             if bad:
                 res.fail("R-VN", finding(prop, "R-VN", fn, pc.node or fn.node, f"under [{guard}] the helper state differs from the definition: {bad}", construct=f"{ci.name} state under [{guard}]"[:190]))
@@ -140,7 +204,7 @@ def compare_class(prop: str, res: Result, repo: Repo, ci: ClassInfo) -> None:
                 res.ok("R-VN", {"class": ci.name, "guard": guard, "value": _short(pc.ret), "definition case": rguard}, nontrivial=f"{ci.name}:{guard}")
     # every definition case must be reachable by some code path
     for pr in cr.paths:
-        fr = tuple(pr.state.facts)
-        if not any(compatible(tuple(pc.state.facts), fr) for pc in ca.paths):
+        fr = rename(tuple(pr.state.facts), ids_r)
+        if not any(compatible(rename(tuple(pc.state.facts), ids_c), fr) for pc in ca.paths):
             rguard = " & ".join(show_cond(c) for c in fr)[:200]
             res.fail("R-VN", finding(prop, "R-VN", fn, fn.node, f"the definition's case [{rguard}] has no counterpart in the code", construct=f"{ci.name} missing case [{rguard}]"[:190]))
